@@ -1,5 +1,5 @@
 """./check <id> quick|thorough | --replay <file>   — orchestrates one property check (DESIGN.md §6)."""
-import importlib, json, os, sys, time, traceback
+import importlib, json, os, signal, sys, time, traceback
 from . import common, gen_tie, gen_tie_c, tie_audit
 from .common import Ctx, Infra
 
@@ -28,6 +28,14 @@ def main(argv):
     except ImportError as e:
         print("no check for", prop, e); return 2
     ctx = Ctx(prop, tier, seed)
+    # watchdog: a change of /repo may make the real code (or the search around a difference) loop forever; the run is then
+    # ended from inside, the traceback says where it was, and the decision below reports it as a broken correspondence
+    budget = int(os.environ.get("VERIF_BUDGET_S", "0") or 0) or (1200 if tier == "quick" else 10800)
+    def _alarm(signum, frame):
+        raise TimeoutError("the check exceeded its time budget of %d s (VERIF_BUDGET_S); on the unchanged tree it needs a small "
+                           "fraction of that — the traceback shows what was executing" % budget)
+    signal.signal(signal.SIGALRM, _alarm)
+    signal.alarm(budget)
     try:
         audit = common.lean_audit(prop)
         tie = gen_tie.translate_and_build(prop)     # definitions regenerated from the source vs the model
@@ -90,6 +98,7 @@ def main(argv):
     except Exception:
         traceback.print_exc(); print("INFRA: harness crashed"); return 2
 
+    signal.alarm(0)
     known = [k for k in common.load_known() if k.get("property") == prop and k.get("status", "open") == "open"]
     known_sigs = {k["signature"]: k for k in known}
     new, seen_known = [], {}
